@@ -141,6 +141,9 @@ def observe(case):
     events += [H.ev(ev="run_start", kind="full", method="checkpointed", K=0)]
     events += [H.norm_hook(e) for e in ck["primal"]] + [ck["end"]]
     events += [H.norm_hook(e) for e in ck["reverse"]] + [H.ev(ev="grad_end", gerr=0)]
+    import jax
+
+    jax.clear_caches()
     nz = bool(np.max(np.abs(ck["g_eps"])) > 0)
     no_pml = len(obj.pml_objects) == 0
     return H.finalize(case["id"], T, events, tol=50, gtol=1000, cmp_fp=no_pml, extra={"K": K, "grad_nonzero": nz, "gerr_ppb": gerr})
